@@ -39,3 +39,66 @@ RESERVOIR = {
 }
 
 UNITS = {"reservoir": RESERVOIR}
+
+# ---------------------------------------------------------------------------------------------------------------- readouts
+_PREPARE = {"name": "_prepare_inputs_for_learning", "file": "reservoirpy/nodes/readouts/base.py", "coqname": "prepare_inputs",
+            "params": {"X": None, "Y": None, "bias": B, "allow_reshape": "IGNORE"}}
+
+
+def _prepare(xkind, ykind):
+    return dict(_PREPARE, params={"X": xkind, "Y": ykind, "bias": B, "allow_reshape": "IGNORE"})
+
+
+READOUT_FIELDS = {"Wout": M, "bias": V("row"), "input_bias": B, "state_value": V("row")}
+
+ONLINE = {
+    "module": "GenOnline", "out": "Gen_online.v",
+    "fields": dict(READOUT_FIELDS, P=M, _alpha_gen=("GEN",)),
+    "methods": {"state": "state_value"},
+    "identity_calls": ["check_vector"],
+    "functions": [
+        {"name": "add_bias", "file": "reservoirpy/utils/validation.py", "pinned": ADD_BIAS_PINNED, "prim": "add_bias_row",
+         "params": {"X": V("row")}, "ret": V("row")},
+        _prepare(V("row"), V("row")),
+        {"name": "readout_forward", "file": "reservoirpy/nodes/readouts/base.py", "objects": ["node"],
+         "params": {"node": "OBJ", "x": V("row")}},
+        {"name": "_assemble_wout", "file": "reservoirpy/nodes/readouts/base.py",
+         "params": {"Wout": M, "bias": V("row"), "has_bias": B}},
+        {"name": "_split_and_save_wout", "file": "reservoirpy/nodes/readouts/base.py", "objects": ["node"],
+         "params": {"node": "OBJ", "wo": M}},
+        {"name": "_compute_error", "file": "reservoirpy/nodes/readouts/base.py", "objects": ["node"],
+         "params": {"node": "OBJ", "x": V("row"), "y": V("row")}},
+        {"name": "_rls", "file": "reservoirpy/nodes/readouts/rls.py", "params": {"P": M, "r": V("col"), "e": V("row")}},
+        {"name": "train", "file": "reservoirpy/nodes/readouts/rls.py", "coqname": "rls_train", "objects": ["node"],
+         "params": {"node": "OBJ", "x": V("row"), "y": V("row")}},
+        {"name": "_lms", "file": "reservoirpy/nodes/readouts/lms.py", "params": {"alpha": ("GEN",), "r": V("col"), "e": V("row")}},
+        {"name": "train", "file": "reservoirpy/nodes/readouts/lms.py", "coqname": "lms_train", "objects": ["node"],
+         "params": {"node": "OBJ", "x": V("row"), "y": V("row")}},
+    ],
+}
+
+RIDGE = {
+    "module": "GenRidge", "out": "Gen_ridge.v",
+    "fields": dict(READOUT_FIELDS, ridge=S, input_dim=N, XXT=M, YXT=M),
+    "buffers": ["XXT", "YXT"],
+    "methods": {"state": "state_value"},
+    "identity_calls": ["check_vector"],
+    "oracles": [("solve", "list (list F) -> list (list F) -> list (list F)")],
+    "functions": [
+        {"name": "add_bias", "file": "reservoirpy/utils/validation.py", "pinned": ADD_BIAS_PINNED, "prim": "add_bias_mat",
+         "params": {"X": M}, "ret": M},
+        _prepare(M, M),
+        {"name": "readout_forward", "file": "reservoirpy/nodes/readouts/base.py", "objects": ["node"],
+         "params": {"node": "OBJ", "x": V("row")}},
+        {"name": "_solve_ridge", "file": "reservoirpy/nodes/readouts/ridge.py", "params": {"XXT": M, "YXT": M, "ridge": M}},
+        {"name": "_accumulate", "file": "reservoirpy/nodes/readouts/ridge.py", "objects": ["readout"],
+         "params": {"readout": "OBJ", "xxt": M, "yxt": M}},
+        {"name": "partial_backward", "file": "reservoirpy/nodes/readouts/ridge.py", "objects": ["readout"],
+         "params": {"readout": "OBJ", "X_batch": M, "Y_batch": M, "lock": ("OPT",)}},
+        {"name": "backward", "file": "reservoirpy/nodes/readouts/ridge.py", "objects": ["readout"], "allow_kwargs": True, "allow_varargs": True,
+         "params": {"readout": "OBJ"}},
+    ],
+}
+
+UNITS["online"] = ONLINE
+UNITS["ridge"] = RIDGE
